@@ -61,10 +61,14 @@ type diffEvent struct {
 	FaultBad  int    `json:"faultbad"`
 	Sync      string `json:"sync"`
 	ELoads    int    `json:"eloads"` // distinct names loaded by DiffIter
-	LLoads    int    `json:"lloads"` // distinct names loaded by DiffLinks
-	Counted   bool   `json:"counted"`
-	Stores    string `json:"stores"` // "one" | "two": the new version is opened on a mirror store holding the same nodes under another prefix
-	DCache    bool   `json:"dcache"` // a fresh NodeCache is attached to both trees while they are diffed
+	// of those (and of the node diff's): nodes that BOTH versions contain, but at different places (another level, or other
+	// bounding keys): a subtree that is common to both versions without sitting at the same place in them
+	EShift  int    `json:"eshift"`
+	LShift  int    `json:"lshift"`
+	LLoads  int    `json:"lloads"` // distinct names loaded by DiffLinks
+	Counted bool   `json:"counted"`
+	Stores  string `json:"stores"` // "one" | "two": the new version is opened on a mirror store holding the same nodes under another prefix
+	DCache  bool   `json:"dcache"` // a fresh NodeCache is attached to both trees while they are diffed
 	// large pairs: counts only
 	Big    bool   `json:"big"`
 	ReachO int    `json:"reacho"`
@@ -194,6 +198,42 @@ func (r *diffRun) reopen(s *diffSide) *mast.Mast {
 		panic(err)
 	}
 	return m
+}
+
+func loadedNames(ev []storeEvent) map[string]bool {
+	m := map[string]bool{}
+	for _, e := range ev {
+		if e.Kind == "load" {
+			m[e.Name] = true
+		}
+	}
+	return m
+}
+
+// places records, for every node reachable from a link, its level and the ranks of the keys that bound it (0 / 2^30 at the ends).
+func (r *diffRun) places(name string, level, lo, hi int, acc map[string][3]int) {
+	if name == "" {
+		return
+	}
+	b, ok := r.st.get(name)
+	if !ok {
+		return
+	}
+	rn, err := decodeNode(r.cfg.NF, b)
+	if err != nil {
+		return
+	}
+	acc[name] = [3]int{level, lo, hi}
+	for i, l := range rn.Links {
+		clo, chi := lo, hi
+		if i > 0 && i-1 < len(rn.Keys) {
+			clo = r.proj.keyRank(rn.Keys[i-1])
+		}
+		if i < len(rn.Keys) {
+			chi = r.proj.keyRank(rn.Keys[i])
+		}
+		r.places(l, level-1, clo, chi, acc)
+	}
 }
 
 func kindOf(added, removed bool) int {
@@ -373,7 +413,23 @@ func diffCase(id int, seed int64, out *json.Encoder, big bool) {
 		cfg.VT = "int"
 	}
 	r := &diffRun{cfg: cfg, rng: rng}
-	if big {
+	crown := big && rng.Intn(5) == 0
+	if crown {
+		// a tall tree over user keys whose smallest key belongs to the top layer and is absent from the old version: adding it
+		// puts a new first key into the top node (or a new top node above the old tree), which shifts a subtree common to both versions
+		cfg.NK, cfg.Bf, cfg.KT, cfg.Cmp, cfg.Rev = 60+rng.Intn(120), 2, "userkey", false, false
+		r.cfg = cfg
+		top := 5 + rng.Intn(2)
+		layers := []int{top}
+		for i := 1; i < cfg.NK; i++ {
+			l := 0
+			for l < top && rng.Intn(2) == 0 {
+				l++
+			}
+			layers = append(layers, l)
+		}
+		r.kc = newKeyCodec("userkey", cfg.NK, 2, rng, layers, top)
+	} else if big {
 		r.kc = bigKeyCodec(cfg.KT, cfg.NK, cfg.Bf)
 	} else {
 		r.kc = newKeyCodec(cfg.KT, cfg.NK, cfg.Bf, rng, nil, 3)
@@ -403,10 +459,16 @@ func diffCase(id int, seed int64, out *json.Encoder, big bool) {
 	if big {
 		ev.Mode = []string{"lineage", "lineage", "siblings", "same", "same-clone", "rebuilt"}[rng.Intn(6)]
 	}
+	if crown {
+		ev.Mode = "crown"
+	}
 	base := r.fresh()
 	nb := rng.Intn(2*cfg.NK + 1)
 	if big {
 		for k := 1; k <= cfg.NK; k++ {
+			if crown && k == 1 {
+				continue
+			}
 			if rng.Intn(8) != 0 {
 				v := 1 + rng.Intn(2)
 				if err := base.m.Insert(ctx, r.kc.Key(k), r.vc.Val(v)); err != nil {
@@ -512,6 +574,17 @@ func diffCase(id int, seed int64, out *json.Encoder, big bool) {
 		if rng.Intn(2) == 0 {
 			r.mutate(newS, 1, 0)
 		}
+		if rng.Intn(2) == 0 {
+			oldS, newS = newS, oldS
+		}
+	case "crown":
+		oldS = base
+		r.persist(oldS)
+		newS = r.clone(oldS)
+		if err := newS.m.Insert(ctx, r.kc.Key(1), r.vc.Val(1)); err != nil {
+			panic(err)
+		}
+		newS.model[1] = 1
 		if rng.Intn(2) == 0 {
 			oldS, newS = newS, oldS
 		}
@@ -662,6 +735,7 @@ func diffCase(id int, seed int64, out *json.Encoder, big bool) {
 	ev.Cb, ev.CbRes, msg = r.entryDiff(nm, o2, 0, 0)
 	sev := endAll()
 	_, ev.ELoads = distinctLoads(sev)
+	eNames := loadedNames(sev)
 	ev.Counted = bothPersisted
 	ev.Msg = msg
 	if !big {
@@ -695,6 +769,7 @@ func diffCase(id int, seed int64, out *json.Encoder, big bool) {
 		sev = endAll()
 		var ltotal int
 		ltotal, ev.LLoads = distinctLoads(sev)
+		lNames := loadedNames(sev)
 		ev.LRes = lres
 		if lmsg != "" {
 			ev.Msg += " | links: " + lmsg
@@ -707,6 +782,24 @@ func diffCase(id int, seed int64, out *json.Encoder, big bool) {
 		}
 		r.proj.reach(linkOf(newS.root), rn)
 		ev.ReachO, ev.ReachN = len(ro), len(rn)
+		// places of the nodes in either version: level and bounding keys
+		posO, posN := map[string][3]int{}, map[string][3]int{}
+		if oldS != nil {
+			r.places(linkOf(oldS.root), int(oldS.root.Height), 0, 1<<30, posO)
+		}
+		r.places(linkOf(newS.root), int(newS.root.Height), 0, 1<<30, posN)
+		shifted := func(names map[string]bool) int {
+			n := 0
+			for name := range names {
+				po, okO := posO[name]
+				pn, okN := posN[name]
+				if okO && okN && po != pn {
+					n++
+				}
+			}
+			return n
+		}
+		ev.EShift, ev.LShift = shifted(eNames), shifted(lNames)
 		if oldS != nil {
 			ev.HO = int(oldS.root.Height)
 		}
